@@ -495,7 +495,14 @@ def check_fault(case):
         last = (fc >= state["calls"])
         out.label("fault_in_last_cycle" if last else "fault_recovered")
         if not last:
-            out.le(site + ":later cycles recover", rr, max(tol * (1 + 1e-6), 1e3 * U_ * kappa * n), f"fault cycle {fc} of {state['calls']}")
+            # The faulty cycle returns an arbitrary iterate; G = the largest true relative residual recorded from the
+            # faulty cycle on.  A later cycle reduces ||r0|| = G||b|| down to its Krylov optimum up to the loss of
+            # orthogonality of single-pass modified Gram-Schmidt, which re-orthogonalises only below a cancellation
+            # ratio of sqrt(eps) (so <= eps/sqrt(eps) = sqrt(eps)): recovery to max(tol, floor, 4 sqrt(u) G).
+            hist_f = [float(h[2]) for h in (info.get("residual_history") or []) if len(h) >= 3][fc - 1:]
+            G = max([1.0] + [v for v in hist_f if np.isfinite(v)])
+            out.le(site + ":later cycles recover", rr, max(tol * (1 + 1e-6), 1e3 * U_ * kappa * n, 4.0 * np.sqrt(U_) * G),
+                   f"fault cycle {fc} of {state['calls']}, largest residual after the fault {G:.3e}")
     out.nontrivial = state["hit"]
     return out
 
